@@ -15,6 +15,7 @@ import (
 	"net/http/httptest"
 	"sort"
 	"strings"
+	"sync"
 	"testing"
 	"testing/synctest"
 	"time"
@@ -121,6 +122,31 @@ func genSysCase(r *vh.Rand) Case {
 		//   inner  : root -> mid route carrying the lists -> (mid2 ->) leaf "team" WITHOUT lists: always notifies
 		//   leaf   : root -> mid route with other/no lists -> leaf "team" carrying the lists
 		shape := vh.Pick(r, []string{"flat", "flat", "inner", "leaf", "siblings"})
+		if r.Chance(1, 6) {
+			// the maintenance race, driven through the dispatcher's yield points
+			shape = "flat"
+			in.D, in.Sil, in.Sib, in.K, in.GW, in.GI, in.NullRecv = 0, nil, nil, 1, 0, 45, false
+			in.Race = &RaceIn{ResolveAfter: 20, Reput: 62, Queries: []int64{64, 80}}
+			offs := []int64{-200, -150, 5, 30, -70, -55, 3600, -3600}
+			vh.Shuffle(r, offs)
+			in.Start = edge + offs[0]
+			if tis, err := loadNamed(named); err == nil && !r.Chance(1, 4) {
+				// prefer a start at which the successor's flush is gated (that is where a lost marker entry shows)
+				m := toMap(tis)
+				for _, o := range offs {
+					at := time.Unix(edge+o+in.Race.Reput, 0)
+					mb, _ := specMutedBy(m, mute, at)
+					ab, _ := specMutedBy(m, active, at)
+					if len(mb) > 0 || (len(active) > 0 && len(ab) == 0) {
+						in.Start = edge + o
+						break
+					}
+				}
+			}
+			if in.Start < y2000+86400 {
+				continue
+			}
+		}
 		if shape == "siblings" {
 			in.D, in.Sil, in.K, in.GI = 0, nil, 1, 3600
 			in.GW = vh.Pick(r, []int64{1, 10, 30})
@@ -331,6 +357,19 @@ type SysIn struct {
 	Sil   *SilIn `json:"silence,omitempty"`
 	NullRecv bool `json:"null_receiver,omitempty"` // the route's receiver has no integration
 	Sib   *SibIn `json:"siblings,omitempty"`
+	Race  *RaceIn `json:"maintenance_race,omitempty"`
+}
+
+// RaceIn: a SCHEDULE over the dispatcher's yield points (dispatch.SetVerifYield, build tag verif). The alert
+// resolves ResolveAfter s after Start; the group's second flush (Start+GI) empties it; the next maintenance run
+// (every 30 s) picks the destroyed group up and is PAUSED at the yield point "maintenance:stopped" (after
+// ag.stop(), before CompareAndDelete); at Start+Reput the alert fires again: groupAlert swaps in a successor group
+// which (group_wait 0) flushes at once; then maintenance is released (its CompareAndDelete loses against the
+// successor). Queries: afterwards only the marker / API view of the live successor is looked at.
+type RaceIn struct {
+	ResolveAfter int64   `json:"resolve_after_s"`
+	Reput        int64   `json:"reput_at_s"`
+	Queries      []int64 `json:"queries_s"`
 }
 
 // SibIn: two SIBLING routes with identical matchers: "pager" (first, continue: true, no interval lists, short
@@ -358,6 +397,8 @@ type sysEvent struct {
 	at    int64 // expected flush (tick) instant, or the instant of a query
 	gid   int
 	query bool // no flush of the route under test here: only look at the marker / API
+	emptying  bool // the flush that sends the resolved alert away: the group has no alert afterwards (not listed)
+	successor bool // the first flush of the successor group created while maintenance is paused
 }
 
 func (in *SysIn) groups() int {
@@ -370,6 +411,13 @@ func (in *SysIn) groups() int {
 // events: group g is created at Start+g*D, flushes first after group_wait and then every group_interval
 func (in *SysIn) events() []sysEvent {
 	var evs []sysEvent
+	if in.Race != nil {
+		evs = append(evs, sysEvent{at: in.Start}, sysEvent{at: in.Start + in.GI, emptying: true}, sysEvent{at: in.Start + in.Race.Reput, successor: true})
+		for _, q := range in.Race.Queries {
+			evs = append(evs, sysEvent{at: in.Start + q, query: true})
+		}
+		return evs
+	}
 	if in.Sib != nil {
 		evs = append(evs, sysEvent{at: in.Start + in.GW})
 		for _, q := range in.Sib.Queries {
@@ -467,6 +515,7 @@ func (rn *runner) sys(c *Case) {
 	}{}
 	var fail string
 	pagerAlive, teamAlive := false, false
+	racePaused := false
 	sysDepth := 0
 	if _, err := config.Load(c.YAML); err != nil {
 		rn.run.Violate("valid-spec-rejected", "config.Load rejected a well-formed configuration with time intervals: "+errClass(err), c)
@@ -515,12 +564,37 @@ func (rn *runner) sys(c *Case) {
 			if in.Sib != nil && now.Unix() < in.Start+in.Sib.RefireAt {
 				ends = time.Unix(in.Start+in.Sib.ResolveAfter, 0) // resolves soon; fired again at RefireAt
 			}
+			if in.Race != nil && now.Unix() < in.Start+in.Race.Reput {
+				ends = time.Unix(in.Start+in.Race.ResolveAfter, 0)
+			}
 			s.PutAlert(t, &alert.Alert{Alert: model.Alert{Labels: model.LabelSet{"alertname": model.LabelValue(sysAlertNames[g]), "team": "x"},
 				StartsAt: now, EndsAt: ends}, UpdatedAt: now})
+		}
+		var reached, release chan struct{}
+		if in.Race != nil {
+			reached, release = make(chan struct{}, 1), make(chan struct{})
+			var once sync.Once
+			dispatch.SetVerifYield(func(point string, _ ...any) {
+				if point == "maintenance:stopped" {
+					once.Do(func() { // the maintenance goroutine waits here until the schedule lets it go on
+						reached <- struct{}{}
+						<-release
+					})
+				}
+			})
+			defer dispatch.SetVerifYield(nil)
+			defer func() {
+				select {
+				case <-release:
+				default:
+					close(release)
+				}
+			}()
 		}
 		put(0)
 		putB := in.groups() == 2
 		refired := false
+		keys := map[int][2]string{}
 		seen := 0
 		silID := ""
 		for evIdx, ev := range evs {
@@ -542,6 +616,17 @@ func (rn *runner) sys(c *Case) {
 				if err := s.Silences.Expire(context.Background(), silID); err != nil {
 					t.Fatalf("silence Expire: %v", err)
 				}
+			}
+			if in.Race != nil && ev.successor {
+				sleepUntil(in.Start + in.Race.Reput - 1)
+				synctest.Wait()
+				select {
+				case <-reached:
+					racePaused = true
+				default: // maintenance did not come by a destroyed group: the schedule could not be driven
+				}
+				sleepUntil(in.Start + in.Race.Reput)
+				put(0)
 			}
 			if in.Sib != nil && !refired && in.Start+in.Sib.RefireAt <= ev.at {
 				sleepUntil(in.Start + in.Sib.RefireAt)
@@ -609,6 +694,23 @@ func (rn *runner) sys(c *Case) {
 				return
 			}
 			fo.markerAll = map[int][]string{}
+			if ev.emptying {
+				// the group has just sent its last (resolved) alert away: it is not listed any more; its marker entry
+				// is read with the keys seen earlier
+				if k, ok := keys[fo.gid]; ok {
+					fo.by, fo.isMuted = s.Marker.Muted(k[0], k[1])
+					fo.haveGroup = true
+				}
+			}
+			for _, g := range groups {
+				if g.Receiver == "team" {
+					for gid, n := range sysAlertNames {
+						if string(g.Labels["alertname"]) == n {
+							keys[gid] = [2]string{g.RouteID, g.GroupKey}
+						}
+					}
+				}
+			}
 			for _, g := range groups {
 				if g.Receiver != "team" {
 					continue
@@ -644,6 +746,10 @@ func (rn *runner) sys(c *Case) {
 				}
 			}
 			obs = append(obs, *fo)
+			if ev.successor {
+				close(release) // maintenance goes on: CompareAndDelete against a map that now holds the successor
+				synctest.Wait()
+			}
 		}
 	})
 	if fail != "" {
@@ -767,6 +873,9 @@ func (rn *runner) sys(c *Case) {
 	rn.run.Add(term, c, len(conf.mute)+len(conf.active) > 0 && ((nPass > 0 && nBlock > 0) || (in.Sib != nil && nBlock > 0)))
 	rn.run.Count("sys_cases", fmt.Sprintf("groups:%d gi:%ds both-outcomes:%v", in.groups(), in.GI, nPass > 0 && nBlock > 0))
 	rn.run.Count("sys_cases", fmt.Sprintf("sibling routes with one group key:%v", in.Sib != nil))
+	if in.Race != nil {
+		rn.run.Count("sys_cases", fmt.Sprintf("maintenance paused before CompareAndDelete while a successor group flushed:%v successor-muted:%v", racePaused, len(lastWant[0]) > 0))
+	}
 	rn.run.Count("sys_cases", fmt.Sprintf("receiver without integration:%v", in.NullRecv))
 	rn.run.Count("sys_cases", fmt.Sprintf("route depth:%d leaf has own lists:%v", sysDepth, len(conf.mute)+len(conf.active) > 0))
 	if in.groups() == 2 {
